@@ -431,7 +431,10 @@ def epub_doc(chapter_texts):
                                              '<rootfiles><rootfile full-path="OEBPS/content.opf" media-type="application/oebps-package+xml"/></rootfiles></container>')
         # a chapter text of None = spine entry whose manifest item is missing (skipped by the extractor)
         items = "".join(f'<item id="c{i}" href="c{i}.xhtml" media-type="application/xhtml+xml"/>' for i, t in enumerate(chapter_texts) if t is not None)
-        refs = "".join(f'<itemref idref="c{i}"/>' for i in range(len(chapter_texts)))
+        # a chapter given as [text, "no"] is an auxiliary spine item (linear="no"): still spine position k
+        refs = "".join(f'<itemref idref="c{i}"' + (f' linear="{t[1]}"' if isinstance(t, (list, tuple)) else "") + "/>"
+                       for i, t in enumerate(chapter_texts))
+        chapter_texts = [t[0] if isinstance(t, (list, tuple)) else t for t in chapter_texts]
         z.writestr("OEBPS/content.opf", '<?xml version="1.0"?><package xmlns="http://www.idpf.org/2007/opf" version="3.0" unique-identifier="id">'
                                         '<metadata xmlns:dc="http://purl.org/dc/elements/1.1/"><dc:title>T</dc:title><dc:identifier id="id">x</dc:identifier></metadata>'
                                         f'<manifest>{items}</manifest><spine>{refs}</spine></package>')
@@ -446,7 +449,8 @@ def check_epub(chapter_texts):
     from sharepoint2text.parsing.extractors.epub_extractor import read_epub
     c = next(read_epub(io.BytesIO(epub_doc(chapter_texts))))
     obs = observe(c)
-    want = [(k, t) for k, t in enumerate(chapter_texts, start=1) if t is not None]     # number = 1-based spine position
+    plain = [t[0] if isinstance(t, (list, tuple)) else t for t in chapter_texts]
+    want = [(k, t) for k, t in enumerate(plain, start=1) if t is not None]     # number = 1-based spine position
     ok = [n for n, _t in obs] == [n for n, _t in want] and all(w in t for (_n, t), (_k, w) in zip(obs, want)) \
         and c.get_full_text() == spec_fulltext(obs)
     if not ok:
@@ -457,6 +461,10 @@ def check_epub(chapter_texts):
 
 
 def sweep_epub():
+    for st in (["Alpha", ["Aux", "no"], "Beta"], [["Cover", "no"], "Alpha"], ["Alpha", ["Aux", "yes"], "Beta"]):
+        r = check_epub(st)
+        if r:
+            return r
     pool = ["Alpha", "", None, "Beta"]
     for n in range(0, 4):
         for st in itertools.product(pool, repeat=n):
